@@ -63,7 +63,7 @@ class Run(object):
         self.floors.append((rid, what, found, floor))
         if found < floor:
             self.undecided.append(dict(rule=rid, where='-', what='instance floor: %s: found %d < %d'
-                                       % (what, found, floor)))
+                                       % (what, found, floor), found=found, floor=floor))
 
     def ob(self, rid, unit, node, what, verdict, slot=None, message=None, path=None, detail=None, absence=None):
         """Record one obligation. verdict: True (holds) / False (violation) / None (undecided)."""
@@ -100,6 +100,10 @@ class Run(object):
             return set([r] + r.split('/'))
         lost = set()
         for u in self.undecided:
+            # an instance floor missed by exactly one, with instances left, is what a *deletion* looks like (the regression itself);
+            # losing all or several instances is what a restructuring the rule does not read looks like
+            if 'floor' in u and u['found'] > 0 and u['floor'] - u['found'] == 1:
+                continue
             lost |= base(u['rule'])
         lost.discard('-')
         if not lost:
